@@ -69,6 +69,7 @@ HEADER_SETS = [
     [("Foo", "\x0bv\x0c"), ("Bar", "\xa0v\x85"), ("Baz", " \x1cv\x1f ")],     # str.strip() whitespace that is not OWS
     [("Content-Type", " text/plain")],
     [("content-type", " a/b; charset=x")],
+    [("Content-Type", " Text/HTML; Charset=UTF-8"), ("X-Mixed", " AbC \xc9")],
     [("Content-Type", " a"), ("Content-Type", " b")],
     [("Content-Length", " 0")],
     [("Content-Length", " 007")],
@@ -130,7 +131,7 @@ def fixed_cases():
 ALPHABET = [b"/", b"/", b"a", b"b", b"%41", b"%2F", b"%2f", b"%", b"%4", b"%zz", b"?", b"#", b":", b"//", b"@", b"[", b"]", b";",
             b"=", b"&", b"+", b"\xe9", b"\xff", b"%E9", b"%00", b"%25", b".", b"..", b"*", b"~", b"http:", b"1"]
 HNAMES = ["Foo", "foo", "FOO", "X-Bar", "x-bar", "Content-Type", "Content-Length", "Accept", "X_Us", "Host", "A", "a"]
-HVALS = [" 1", " 2", "3", "", " a,b", " \xe9", " x y ", "\t t\t", " 0", " 12"]
+HVALS = [" 1", " 2", "3", "", " a,b", " \xe9", " x y ", "\t t\t", " 0", " 12", " AbC", " \xc9\xe9", "\x0bq\xa0"]
 
 
 def gen_random(rng):
